@@ -239,7 +239,8 @@ pub struct ValueCase {
     /// innermost store that is overwritten by a later one: index into `entries`
     pub shadow: Option<usize>,
     pub hex: bool,
-    /// 0 none, 1 nested single-binding lets, 2 one let with several bindings
+    /// 0 none, 1 nested single-binding lets, 2 one let with several bindings, 3 nested
+    /// single-binding lets that bind the same name at every level (each shadows the outer one)
     pub lets: u32,
     pub layout_seed: u64,
     pub multiline: bool,
@@ -318,7 +319,7 @@ impl ValueCase {
             entries,
             shadow,
             hex: rng.bool(),
-            lets: if index.is_some() { *rng.pick(&[0, 0, 1, 1, 2]) } else { 0 },
+            lets: if index.is_some() { *rng.pick(&[0, 0, 1, 1, 2, 3]) } else { 0 },
             layout_seed: rng.next_u64(),
             multiline: rng.chance(1, 2),
             benign: true,
@@ -359,9 +360,9 @@ impl ValueCase {
             let it = scalar_txt(idx, iw, self.hex);
             let dt = scalar_txt(data, self.width, self.hex);
             match self.lets {
-                1 => {
+                1 | 3 => {
                     // nested single-binding lets around the array built so far
-                    let name = format!("a!{}", n + 1);
+                    let name = if self.lets == 3 { "a!1".to_string() } else { format!("a!{}", n + 1) };
                     bindings.push((name.clone(), txt));
                     txt = format!("(store {name} {it} {dt})");
                 }
@@ -375,7 +376,7 @@ impl ValueCase {
             }
         }
         match self.lets {
-            1 => {
+            1 | 3 => {
                 for (name, def) in bindings.into_iter().rev() {
                     txt = format!("(let (({name} {def})) {txt})");
                 }
@@ -624,6 +625,8 @@ fn judge_value(case: &ValueCase, acc: &mut Acc) -> Option<Violation> {
                     "multi-binding-let"
                 } else if case.lets == 1 {
                     "nested-let"
+                } else if case.lets == 3 {
+                    "shadowing-nested-let"
                 } else if case.index.is_some() {
                     "array"
                 } else {
@@ -1170,6 +1173,7 @@ impl Property for C14 {
             acc.count("probe.bool_indexed_array", (case.index == Some(0)) as u64);
             acc.count("probe.bool_valued_array", (case.index.is_some() && case.width == 0) as u64);
             acc.count("probe.value_with_nested_let", (case.lets == 1 && !case.entries.is_empty()) as u64);
+            acc.count("probe.value_with_shadowing_nested_let", (case.lets == 3 && case.entries.len() >= 2) as u64);
             acc.count("probe.value_with_multi_binding_let", (case.lets == 2 && !case.entries.is_empty()) as u64);
             acc.count("probe.value_with_shadowed_store", case.shadow.is_some() as u64);
             acc.count("probe.reply_spanned_lines", case.reply_txt().trim_end().contains('\n') as u64);
@@ -1372,7 +1376,7 @@ impl Property for C14 {
     fn meta(&self) -> EvidenceMeta {
         EvidenceMeta {
             level: "exploration",
-            rule: "per run: (b) 8 random model values (Bool, bit-vectors of width 1..129 on both sides of the 64/128-bit word boundaries, arrays incl. Bool-indexed and Bool-valued) printed in every form solvers use (#b / #x, true/false, stores over a constant array in random order, shadowed stores, nested single-binding and multi-binding lets, line breaks at token boundaries) and read through SolverContext::get_value over the real SmtLibSolverCtx from a scripted solver with short reads/EINTR; (c) each reply also cut at random byte offsets followed by solver exit, and unbalanced variants of the value terms through parse_expr / of commands through parse_command: must be Err; (a) the command log of one simulated BMC or PDR conversation is read back with smt::read_command through a chunking/EINTR BufRead (optionally with a truncated last command before EOF) and every command is compared with the reference solver's independent parse: kind, symbol, sort, and value of every term under 16 random assignments (patronus IR evaluated by an independent evaluator). Distinct by (sort, print form features).".into(),
+            rule: "per run: (b) 8 random model values (Bool, bit-vectors of width 1..129 on both sides of the 64/128-bit word boundaries, arrays incl. Bool-indexed and Bool-valued) printed in every form solvers use (#b / #x, true/false, stores over a constant array in random order, shadowed stores, nested single-binding lets (also re-binding the same name), multi-binding lets, line breaks at token boundaries) and read through SolverContext::get_value over the real SmtLibSolverCtx from a scripted solver with short reads/EINTR; (c) each reply also cut at random byte offsets followed by solver exit, and unbalanced variants of the value terms through parse_expr / of commands through parse_command: must be Err; (a) the command log of one simulated BMC or PDR conversation is read back with smt::read_command through a chunking/EINTR BufRead (optionally with a truncated last command before EOF) and every command is compared with the reference solver's independent parse: kind, symbol, sort, and value of every term under 16 random assignments (patronus IR evaluated by an independent evaluator). Distinct by (sort, print form features).".into(),
             assumptions: vec![
                 "scope: the 'reader inverts writer' clause is decided on the writer output that actually crosses the simulated wire (what bmc/pdr emit), not on all expressions the writer could emit (that part is a pure function and outside this technique)".into(),
                 "z3's non-standard (lambda ...) array values and (_ bvN w) literals are not generated".into(),
